@@ -253,6 +253,10 @@ def cases(draw):
     elif fam == "reduce":
         name = draw(st.sampled_from(REDUCE))
         ops = [_operand(draw, base, allow_scalar=False)]
+        if draw(st.integers(0, 3)) == 0:
+            # low-precision operand with large magnitudes: exposes the accumulator dtype of the reduction
+            ops[0].update(dtype=draw(st.sampled_from(["float16", "float16", "float32"])), scale=draw(st.sampled_from([1000, 6000])),
+                          vals=[abs(v) + 1 for v in ops[0]["vals"]])
         p = draw_reduce_params(draw, name, base) or {}
         if p.get("method") and ops[0]["kind"] != "tensor":
             p.pop("method")
